@@ -310,7 +310,16 @@ C06Dest(v, b, dt, dd) ==
      path |-> PathOf([t \in 1..8 |-> IF t >= dt THEN <<Dest(v, dd)>> ELSE <<TE(v, t, 2000)>>])]
 \* the destination (and every router) answers while the sender is still inside the write of that probe
 C06Eager(v, dt) == [C06Dest(v, BaseMid, dt, 0) EXCEPT !.id = "C06/eager/" \o v \o "/" \o ToString(dt), !.label = v \o "/stop_after_dest/eager"] @@ [eager |-> TRUE]
-C06All(u) == { C06Eager(v, dt) : v \in Variants, dt \in {2, 3, 5} } \cup { C06Full(v, b, r[1], r[2]) : v \in Variants, b \in Bases, r \in {<<1, 255>>, <<200, 255>>, <<1, 30>>} }
+\* IPv4 header checksum at its carry edge: the ones-complement sum of the SYN probe's header words (0x4500, length 40, id, 0, ttl|6,
+\* source 10.77.0.1, destination 198.51.100.9) folds to 16 bits with a SECOND carry for very few (id, ttl) pairs; identifier bases
+\* are chosen so that a probe with TTL 2..8 of a default-mode SYN run is such a pair
+CsumSum(id, ttl) == 17664 + 40 + id + (ttl * 256 + 6) + 2637 + 1 + 50739 + 25609
+CsumEdge(id, ttl) == LET S == CsumSum(id, ttl) IN (S % 65536) + (S \div 65536) >= 65536
+EdgeBases == {b \in 0..65535 : \E t \in 2..8 : CsumEdge((b + t) % 65536, t)}
+C06Csum(b) ==
+    [C06Full("tcp", BaseMid, 1, 8) EXCEPT !.id = "C06/csum_edge/" \o ToString(b), !.label = "tcp/header_checksum_carry_edge", !.ipid_base = b]
+C06CsumAll(u) == LET e == SetToSeq(EdgeBases) IN { C06Csum(e[i]) : i \in 1..(IF Len(e) < 6 THEN Len(e) ELSE 6) }
+C06All(u) == C06CsumAll(u) \cup { C06Eager(v, dt) : v \in Variants, dt \in {2, 3, 5} } \cup { C06Full(v, b, r[1], r[2]) : v \in Variants, b \in Bases, r \in {<<1, 255>>, <<200, 255>>, <<1, 30>>} }
           \cup { C06Dest(v, b, dt, dd) : v \in Variants, b \in Bases, dt \in {1, 2, 5, 8}, dd \in {500, 29000, 31000, 95000} }
 
 ---------------------------------------------------------------------------
